@@ -105,6 +105,10 @@ package storage
 //@   modifies nothing
 //@   ensures [upper] forall x mathint :: {At(*txn, x)} U64(x) && At(*txn, x) != 0 ==> x <= result
 //@   ensures [occupied] result != 0 ==> At(*txn, result) != 0
+//@   -- proof guidance (checked right after the ValidForPrefix call, then assumed): a positioned iterator sits on an entry of the view, not above
+//@   -- the key it was sought at, and -- reverse Seek -- at or above every occupied position
+//@   hint after ValidForPrefix [on-entry] badger.itkey(*it) != 0 ==> badger.kvget(*txn, badger.itkey(*it)) != 0 && !badger.keylt(TP(18446744073709551615), badger.itkey(*it))
+//@   hint after ValidForPrefix [at-or-above] forall x mathint :: {At(*txn, x)} U64(x) && At(*txn, x) != 0 ==> badger.itkey(*it) != 0 && !badger.keylt(badger.itkey(*it), TP(x))
 
 //@ -- ═════════ the writer ═════════
 //@ -- "Each stored snapshot gets a unique topology position": a position is written only when it is FREE -- the explicit panic is the
